@@ -59,10 +59,14 @@ const (
 	OutcomePanic                   // a task panicked
 	OutcomeSteps                   // step cap exceeded (livelock guard)
 	OutcomeInternal                // runtime misuse / replay divergence
+	OutcomeAborted                 // the chooser cut the execution short (state already explored)
 )
 
+// AbortChoice, returned by a Chooser, ends the execution at once.
+const AbortChoice = -1
+
 func (o Outcome) String() string {
-	return [...]string{"ok", "deadlock", "panic", "step-cap", "internal"}[o]
+	return [...]string{"ok", "deadlock", "panic", "step-cap", "internal", "aborted"}[o]
 }
 
 // Options configure one execution.
@@ -122,6 +126,7 @@ type Sched struct {
 	cur      *task
 	main     *task
 	teardown bool
+	aborted  bool
 	ended    bool
 	endCh    chan struct{}
 	exitCh   chan struct{}
@@ -427,6 +432,9 @@ func (s *Sched) pick() *task {
 			alts[n-1] = Alt{Class: ClassSched, Cost: 1, Label: "advance-time"}
 		}
 		idx := s.choose(ChoiceTask, alts)
+		if s.aborted {
+			return nil
+		}
 		if timeOpt && idx == n-1 {
 			s.advanceTime()
 			continue
@@ -459,6 +467,13 @@ func (s *Sched) choose(kind ChoiceKind, alts []Alt) int {
 	idx := 0
 	if s.opts.Chooser != nil {
 		idx = s.opts.Chooser(len(s.ex.Points), &p)
+	}
+	if idx == AbortChoice {
+		s.setOutcome(OutcomeAborted, "")
+		s.aborted = true
+		p.Taken = 0
+		s.ex.Points = append(s.ex.Points, p)
+		return 0
 	}
 	if idx < 0 || idx >= len(alts) {
 		s.setOutcome(OutcomeInternal, fmt.Sprintf("choice %d out of range (%d options) at point %d: replay divergence", idx, len(alts), len(s.ex.Points)))
@@ -585,6 +600,10 @@ func Choose(label string, n int, class uint8) int {
 		alts[i] = Alt{Class: class, Cost: c, Label: fmt.Sprintf("%s=%d", label, i)}
 	}
 	idx := s.choose(ChoiceEnv, alts)
+	if s.aborted {
+		s.end()
+		s.park(s.cur)
+	}
 	s.cur.nops++
 	s.cur.h = mix(s.cur.h, 0xe17, uint64(idx))
 	return idx
